@@ -17,42 +17,42 @@ type Item struct {
 
 // Oblig is one proof obligation.
 type Oblig struct {
-	Name   string
-	Kind   string // post, pre, inv-init, inv-pres, variant, frame, safe/..., decreases, cover, lemma
-	Tags   []string
-	Goal   string // Bool formula to be proved (the query asserts its negation)
-	NItems int    // number of context items visible to the goal
-	Pos    string
-	Func   string
-	Desc   string
-	Cover  bool     // a reachability (must be SAT) check
-	Params []string // names of SMT constants holding the function inputs (for replay)
+	Name     string
+	Kind     string // post, pre, inv-init, inv-pres, variant, frame, safe/..., decreases, cover, lemma
+	Tags     []string
+	Goal     string // Bool formula to be proved (the query asserts its negation)
+	NItems   int    // number of context items visible to the goal
+	Pos      string
+	Func     string
+	Desc     string
+	Cover    bool     // a reachability (must be SAT) check
+	Params   []string // names of SMT constants holding the function inputs (for replay)
 	Raw      string   // complete query text (lemma files)
 	RetTerms []string // SMT terms of the returned values (post obligations)
-	vc     *VC
+	vc       *VC
 }
 
 // VC is the verification context of one function under contract.
 type VC struct {
-	w       *World
-	fn      *ssa.Function
-	con     *Contract
-	sorts   *Sorts
-	mode    ArithMode
-	items   []Item
-	obligs  []*Oblig
-	nfresh  int
-	compSrt map[string]string
-	strLits map[string]string
-	declFns map[string]bool
-	notes   []string // things abstracted (havocked callees, unsupported instructions)
-	inlined map[string]bool
-	assumed map[string]bool // contracts of callees that were used (name -> trusted?)
-	uses    map[string]bool // spec modules
-	siteN   map[string]int
-	fname   string
-	lenSeen map[string]bool
-	failed  error
+	w            *World
+	fn           *ssa.Function
+	con          *Contract
+	sorts        *Sorts
+	mode         ArithMode
+	items        []Item
+	obligs       []*Oblig
+	nfresh       int
+	compSrt      map[string]string
+	strLits      map[string]string
+	declFns      map[string]bool
+	notes        []string // things abstracted (havocked callees, unsupported instructions)
+	inlined      map[string]bool
+	assumed      map[string]bool // contracts of callees that were used (name -> trusted?)
+	uses         map[string]bool // spec modules
+	siteN        map[string]int
+	fname        string
+	lenSeen      map[string]bool
+	failed       error
 	topEnv       *Env
 	params       []string
 	frameTargets []frameTarget
